@@ -17,7 +17,11 @@ class SameID:
           "New tag definition: {}\n".format(cur)+
           "Group ID: {}".format(self.name))
     self._gfa = previous.gfa
-    self._initialize_references()
+    try:
+      self._initialize_references()
+    except:
+      self._rollback_connect()
+      raise
     cur_items = self.get("items")
     self._substitute_virtual_line(previous)
     self._set_existing_field("items", self.get("items") + cur_items, 
